@@ -25,6 +25,7 @@
 #include <fcntl.h>
 #include <errno.h>
 #include <pthread.h>
+#include <signal.h>
 
 static const char *g_dir;
 static char g_path[4096];
@@ -35,11 +36,11 @@ struct cbuf { unsigned char *p; size_t n, cap, pos; size_t chunk; long lowreads;
 static ssize_t cb_write(void *cd, size_t len, const char *b){
   struct cbuf *c=(struct cbuf*)cd;
   if(c->n+len>c->cap){ c->cap=(c->n+len)*2+64; c->p=(unsigned char*)realloc(c->p,c->cap); }
-  memcpy(c->p+c->n,b,len); c->n+=len; return (ssize_t)len; }
+  if(len) memcpy(c->p+c->n,b,len); c->n+=len; return (ssize_t)len; }
 /* the source hands out at most `chunk` bytes per low-level read; the callback gathers like the library's own fns do */
 static ssize_t cb_lowread(struct cbuf *c, char *b, size_t len){
   size_t av=c->n-c->pos; if(len>av) len=av; if(c->chunk && len>c->chunk) len=c->chunk;
-  memcpy(b,c->p+c->pos,len); c->pos+=len; c->lowreads++; return (ssize_t)len; }
+  if(len) memcpy(b,c->p+c->pos,len); c->pos+=len; c->lowreads++; return (ssize_t)len; }
 static ssize_t cb_read(void *cd, size_t len, char *b){
   struct cbuf *c=(struct cbuf*)cd; size_t got=0;
   while(len>0){ ssize_t rc=cb_lowread(c,b,len); if(rc<=0) break; got+=rc; len-=rc; b+=rc; }
@@ -197,6 +198,7 @@ int main(int argc, char **argv){
   char *line;
   if(argc<2){ fprintf(stderr,"usage: c06 <scratch-dir>\n"); return 2; }
   g_dir=argv[1]; g_out=stdout;
+  signal(SIGPIPE,SIG_IGN);   /* a reader that gives up closes the pipe while the feeder thread is still writing */
   bufr_begin_api();
   bufr_set_abort(h_abort_handler);
   while((line=h_getline())){
